@@ -81,6 +81,19 @@ def run(ctx):
                 else:
                     hs.append(("rule", rng.choice(nts), sg.gen_rhs(rng, 2, nts, toks, strs)))
             tree["decls"].insert(rng.randrange(len(tree["decls"]) + 1), ("dir", rng.choice(list(ASSOC)), hs))
+        if {"a", "b", "ab"} <= set(nts) and rng.random() < 0.6:
+            # one directive listing productions whose symbol names spell the same text when written one after the other
+            # (`a b` / `ab`, `"a" b` / `a b`): each is a handle of its own
+            A, B, AB = ("nt", "a"), ("nt", "b"), ("nt", "ab")
+            head = rng.choice(nts)
+            forms = [("alt", [("seq", [A, B]), AB], False), ("alt", [AB, ("seq", [A, B]), ("seq", [A, B, AB])], False),
+                     ("alt", [("seq", [("str", "a"), B]), ("seq", [A, B])], False), ("alt", [("seq", [A, AB]), ("seq", [A, A, B]), ("seq", [AB, B])], False)]
+            if rng.random() < 0.5:
+                hs = [("rule", head, rng.choice(forms))]
+            else:
+                f = rng.choice(forms)
+                hs = [("rule", head, alt) for alt in f[1]]          # the same productions as separate handles
+            tree["decls"].insert(rng.randrange(len(tree["decls"]) + 1), ("dir", rng.choice(list(ASSOC)), hs))
         cases.append((tree, sg.render_spec(rng, tree).encode()))
     texts = [c[1] for c in cases]
     impl, model = run_specs(ctx, texts)
